@@ -121,7 +121,7 @@ def showState (s : State) (o : List Out) : String :=
 def stepLine (s : State) (line : String) : State × String :=
   match parseEvent (words line) with
   | some e =>
-    let (s', o) := step false s e
+    let (s', o) := step true s e
     (s', showState s' o)
   | none => (s, "bad-op")
 
